@@ -19,6 +19,7 @@
 import CatVerif.Proofs.Log
 import CatVerif.Proofs.Steps.Found
 import CatVerif.Proofs.Steps.Resolve
+import CatVerif.Proofs.Steps.Leaves
 namespace Cat
 open St
 
@@ -102,5 +103,12 @@ theorem C09_gates_generated (D : Desc) (s : St) :
 are read from the struct declarations on every run (translator item T21) -/
 theorem C09_counters_unbounded :
     Gen.width_obj_index = 64 := by decide
+
+/-- the walk over the command groups — which entry a table index names, and whether that entry or its group is disabled —
+is the transliteration of `get_command_by_index` / `is_command_disable`, emitted while their bodies have the recorded form
+(translator item T22) -/
+theorem C09_walk_generated (D : Desc) (i : Nat) :
+    cmdByIndex D.groups i = Gen.get_command_by_index D i ∧ disabledByIndex D.groups i = Gen.is_command_disable D i :=
+  ⟨cmdByIndex_generated D i, disabledByIndex_generated D i⟩
 
 end Cat
